@@ -158,9 +158,18 @@ pub fn plain_user_token(policy_id: &str, user: &str, pass: &str) -> ExtensionObj
 }
 
 pub fn activate_request(token: &NodeId, identity: ExtensionObject, user_token_signature: SignatureData) -> SupportedMessage {
+    activate_request_signed(token, identity, user_token_signature, SignatureData::null())
+}
+
+pub fn activate_request_signed(
+    token: &NodeId,
+    identity: ExtensionObject,
+    user_token_signature: SignatureData,
+    client_signature: SignatureData,
+) -> SupportedMessage {
     ActivateSessionRequest {
         request_header: header(token),
-        client_signature: SignatureData::null(),
+        client_signature,
         client_software_certificates: None,
         locale_ids: None,
         user_identity_token: identity,
